@@ -175,7 +175,7 @@ def _make_args(rng, fname, nargs, dtype, layout, dask, H, W):
         r = gen.mk(arr, attrs=copy.deepcopy(attrs), name='input%d' % i, extra=True, chunks=chunks, **geom)
         args.append(r)
     ys = args[0]['y'].values; xs = args[0]['x'].values
-    aux = dict(passes=int(rng.choice([0, 1, 2])), maxd=float(rng.choice([np.inf, 2 * max(geom['cx'], geom['cy'])])) if not dask else np.inf,
+    aux = dict(passes=int(rng.choice([0, 0, 1, 2])), maxd=float(rng.choice([np.inf, 2 * max(geom['cx'], geom['cy'])])) if not dask else np.inf,
                start=(float(ys[0]), float(xs[0])), goal=(float(ys[-1]), float(xs[-1])), vx=float(xs[W // 2]), vy=float(ys[H // 2]),
                nb=int(rng.choice([4, 8])), seed=int(rng.integers(0, 50)))
     return args, aux, geom
